@@ -217,12 +217,23 @@ pub(crate) fn parse_marker_key_op_value<T: Pep508Url>(
                     parse_inverted_version_expr(&l_string, operator, key.clone(), reporter)
                 }
                 // '...' == <env key>
-                MarkerValue::MarkerEnvString(key) => Some(MarkerExpression::String {
-                    key,
-                    // Invert the operator to normalize the expression order.
-                    operator: operator.invert(),
-                    value: l_string,
-                }),
+                MarkerValue::MarkerEnvString(key) => {
+                    if operator == MarkerOperator::TildeEqual {
+                        reporter.report(
+                            MarkerWarningKind::LexicographicComparison,
+                            "Can't compare strings with `~=`, will be ignored".to_string(),
+                        );
+
+                        return Ok(None);
+                    }
+
+                    Some(MarkerExpression::String {
+                        key,
+                        // Invert the operator to normalize the expression order.
+                        operator: operator.invert(),
+                        value: l_string,
+                    })
+                }
                 // `'...' == extra`
                 MarkerValue::Extra => parse_extra_expr(operator, &l_string, reporter),
                 // `'...' == '...'`, doesn't make much sense
